@@ -400,6 +400,8 @@ class Report:
             r["samples"].append(sample)
 
     def violation(self, rid, key, msg, where=""):
+        if rid not in self.rules:  # reported while extracting the rule's instances, before its text was registered
+            self.rule(rid, "(rule text registered later)")
         self.rules[rid]["violations"] += 1
         self.violations.append({"rule": rid, "key": key, "msg": msg, "where": where})
 
